@@ -883,7 +883,7 @@ class Airplane:
         if self.l_ref_lat == -1:
             self.l_ref_lat = 0.0
             for (_, wing_segment) in self.wing_segments.items():
-                if wing_segment.is_main and wing_segment.side == "right":
+                if wing_segment.is_main and (wing_segment.side == "right" or not wing_segment.has_mirror):
                     self.l_ref_lat += wing_segment.b*2.0
 
         # Longitudinal reference length
